@@ -136,6 +136,16 @@ func Build(c Case) (*Built, error) {
 			}
 		}),
 	}
+	if c.has("clonewith-mw") {
+		// a middleware on every scope that hands a CloneWith copy of the context to the next handler
+		opts = append(opts, fox.WithMiddleware(func(next fox.HandlerFunc) fox.HandlerFunc {
+			return func(c fox.Context) {
+				cc := c.CloneWith(c.Writer(), c.Request())
+				defer cc.Close()
+				next(cc)
+			}
+		}))
+	}
 	if c.has("ignore") {
 		opts = append(opts, fox.WithIgnoreTrailingSlash(true))
 	}
